@@ -61,7 +61,7 @@ class Gen:
         self.cons = {}       # id -> dict(opt, kind, used)
         self.assigned = {}   # resobj key -> set of task ids
         self.nextc = 1
-        hz = r.choice([None, 1, 7, 10, 10, 20, 20, 20, 200])
+        hz = r.choice([None, None, 1, 7, 10, 20, 20, 30, 30, 200, 200])
         self.horizon = hz
         self.ops.append(('ONewProblem', optZ(hz)))
         nt = r.randint(1, 6 if self.big else 5)
@@ -69,7 +69,7 @@ class Gen:
             self.new_task(i)
         if r.random() < self.pf['resources']:
             for i in range(1, r.randint(1, 3) + 1):
-                self.ops.append(('ONewWorker', N(i), Z(r.choice([0, 1, 1, 2, 3])), self.cost()))
+                self.ops.append(('ONewWorker', N(i), Z(r.choice([0, 1, 1, 1, 2, 3])), self.cost()))
                 self.workers.append(('WPlain', N(i)))
             if r.random() < 0.5:
                 size = r.choice([2, 2, 3])
@@ -80,7 +80,12 @@ class Gen:
                     k = r.randint(2, len(self.workers))
                     listed = r.sample(self.workers, k)
                     n = r.randint(1, k)
-                    self.ops.append(('ONewSelect', N(sid), [('RW', w) for w in listed], Z(n),
+                    refs = [('RW', w) for w in listed]
+                    if self.cumuls and r.random() < 0.15:
+                        # a cumulative worker listed inside a selection (not flattened by the library)
+                        refs.insert(r.randint(0, len(refs)), ('RC', N(1)))
+                        n = r.randint(1, len(refs))
+                    self.ops.append(('ONewSelect', N(sid), refs, Z(n),
                                      (r.choice(['PbMin', 'PbMax', 'PbExact']),)))
                     self.selects[sid] = listed
             self.assignments(r.randint(1, 2 * nt))
@@ -118,9 +123,9 @@ class Gen:
             kind = ('KVar', Z(mn), optZ(mx), None if al is None else Some([Z(a) for a in al]))
         opt = r.random() < self.pf['p_opt']
         rel = r.choice([None, None, None, 0, 2, 5])
-        due = r.choice([None, None, None, 6, 9, 15])
-        dl = r.random() < 0.7
-        work = r.choice([0, 0, 0, 2, 4, 9])
+        due = r.choice([None, None, None, None, 6, 9, 15, 25])
+        dl = r.random() < 0.5
+        work = r.choice([0, 0, 0, 0, 2, 4])
         self.ops.append(('ONewTask', N(i), kind, opt, Z(work), optZ(rel), optZ(due), dl, Z(r.choice([0, 1, 1, 2, 5]))))
         self.tasks[i] = dict(kind=kind[0], opt=opt)
 
@@ -197,7 +202,7 @@ class Gen:
             k = r.choice(TASKCONS)
             t = N(r.choice(ts))
             if k == 'CStartAt' or k == 'CEndAt':
-                e = (k, t, Z(r.choice([self.time(), self.time(), -3])))
+                e = (k, t, Z(r.choice([self.time(), self.time(), self.time(), self.time(), -3])))
             elif k in ('CStartAfter', 'CEndBefore'):
                 e = (k, t, Z(self.time()), r.random() < 0.5)
             elif k == 'CPrecedence':
@@ -351,6 +356,10 @@ class Gen:
         ws = [('RW', ('WPlain', N(70 + i))) for i in range(3)]
         if k == 'select_too_many':
             n = r.choice([3, 4])
+            if r.random() < 0.4:
+                # a cumulative worker in the list counts as ONE listed resource
+                return ops + base_workers + [('ONewCumulative', N(nid), Z(3), Z(3), ('CostConst', Z(0))),
+                                             ('ONewSelect', N(nid), ws[:r.choice([1, 2])] + [('RC', N(nid))], Z(r.choice([2, 3, 4])), ('PbMin',))]
             return ops + base_workers + [('ONewSelect', N(nid), ws, Z(n), ('PbMin',))]
         if k == 'select_short':
             m = r.choice([0, 1, 2])
